@@ -69,11 +69,24 @@ def reg_flux(check):
     for q, want in (("modeldisc.fvm1d.calc_flux", ["numflux", "pL", "pR"]), ("modeldisc.fvm2dcart.calc_flux", ["numflux", "pL", "pR", None])):
         f = proj.func(q)
         got = None
+        sn = f.params[0]
+
+        def origin(a):
+            """self attribute an argument denotes: self.X directly, or a local bound once to self.X"""
+            if isinstance(a, ast.Attribute) and isinstance(a.value, ast.Name) and a.value.id == sn:
+                return a.attr
+            if isinstance(a, ast.Name):
+                defs = [st.value for st in ast.walk(f.node) if isinstance(st, ast.Assign) and any(isinstance(t, ast.Name) and t.id == a.id for t in st.targets)]
+                if len(defs) == 1:
+                    return origin(defs[0])
+            return None
         for node in ast.walk(f.node):
             if isinstance(node, ast.Call) and isinstance(node.func, ast.Attribute) and node.func.attr == "numflux":
-                got = [(a.attr if isinstance(a, ast.Attribute) else (None if isinstance(a, ast.Name) else "?")) for a in node.args]
+                got = [origin(a) for a in node.args] + [k.arg for k in node.keywords]
         n += 1
-        if got == want:
+        if got is not None and len(got) == len(want) and None in got[:3]:
+            check.undecided("REG-FLUX", q, "arguments of the call to model.numflux could not be traced to attributes of the discretisation: %s" % got, f.loc())
+        elif got is not None and got[:3] == want[:3] and len(got) == len(want):
             check.ok("REG-FLUX", q, "calls model.numflux(self.numflux, self.pL, self.pR%s)" % (", <face normals>" if len(want) == 4 else ""), f.loc())
         elif got is None:
             raise AnalysisError("%s: call to model.numflux not found" % q)
